@@ -6,10 +6,15 @@
      (xreftable xBYTES)                 -> xref_and_trailer, first alternative (Model/Xref.v)
      (objstm (d ...) xCONTENT)          -> ObjectStream::new (Model/ObjStm.v)
      (ahx xENCODED expected)            -> Stream::decode_asciihex (Model/AsciiHex.v); expected is for the harness
+     (loadz BYTES (ids...) <expected>)  -> Reader::read as Model/LoaderExt.v load_ext, Stream::decompress = lopdf's filter plumbing
+                                           (Model/StreamFilt.v) on the GALLINA decoders (Spec/Inflate.v reads fixed and dynamic Huffman
+                                           blocks): files whose structural streams were compressed by a real deflate encoder
+     (objstmz (d ...) BYTES n)          -> ObjectStream::new with the same Stream::decompress; n is for the harness
+   BYTES = one atom xHEX or a list of such atoms (Base/Sx.v reads a long atom in quadratic time)
    <expected> = (loaded xVERSION (trailer sorted by key) (objs ...)) *)
 From LV Require Import Base.Bytes Base.Sx Model.Obj Model.Parser Model.Xref Model.ObjStm Model.Loader
   Spec.XrefSpec Spec.RefWriter.
-From LV Require Model.A85 Model.AsciiHex.
+From LV Require Model.A85 Model.AsciiHex Model.LoaderExt Model.StreamFilt Spec.StreamCodecSpec.
 
 Local Open Scope N_scope.
 
@@ -318,6 +323,21 @@ Definition model_loaded_sx (d : doc) (ignore : list N) : sx :=
       SL (sx_id "objs" :: map (fun io => SL [oid_to_sx (fst io); cobj_to_sx (snd io)])
                               (filter (fun io => negb (existsb (N.eqb (fst (fst io))) ignore)) (d_objects d)))].
 
+(* Stream::decompress (Model/StreamFilt.v, C09) on the Gallina decoders of the standards -- the definition of
+   Proofs/LoadsFilterProofs.v decompress_ref, repeated here so that the runner does not depend on a proof file *)
+Definition decompress_gallina (d : dict) (c : bytes) : option (dict * bytes) :=
+  match StreamFilt.decompress StreamCodecSpec.gallina_inflate StreamCodecSpec.gallina_lzw
+          {| StreamFilt.s_dict := d; StreamFilt.s_content := c |} with
+  | A85.Ok s => Some (StreamFilt.s_dict s, StreamFilt.s_content s)
+  | _ => None
+  end.
+
+Definition as_chunks (x : sx) : option bytes :=
+  match x with
+  | SA _ => as_bytes x
+  | SL l => option_map (@concat byte) (omap as_bytes l)
+  end.
+
 Definition run (x : sx) : sx :=
   match x with
   | SL [t; a; b] =>
@@ -390,6 +410,27 @@ Definition run (x : sx) : sx :=
         | LErr _ => SL [sx_id "loaderr"; sx_id "model"]
         | LPanic => sx_id "panic"
         | LOut => sx_id "outoffuel"
+        end
+      | _, _ => sx_id "badcase"
+      end
+    else if is_id t "loadz" then
+      match as_chunks b, as_Ns ig with
+      | Some f, Some ignore =>
+        match LoaderExt.load_ext decompress_gallina (fun _ => true) f with
+        | LOk d _ => model_loaded_sx d ignore
+        | LUnmodelled => SL [sx_id "unmodelled"]
+        | LErr _ => SL [sx_id "loaderr"; sx_id "model"]
+        | LPanic => sx_id "panic"
+        | LOut => sx_id "outoffuel"
+        end
+      | _, _ => sx_id "badcase"
+      end
+    else if is_id t "objstmz" then
+      match dict_of_sx b, as_chunks ig with
+      | Some d, Some c =>
+        match snd (objstm_new decompress_gallina d c) with
+        | OsOk m => SL [sx_id "ok"; objmap_to_csx m]
+        | OsErr e => SL [sx_id "err"; oserr_to_sx e]
         end
       | _, _ => sx_id "badcase"
       end
